@@ -144,6 +144,9 @@ fn meas(sender: ClockId, receiver: ClockId, s: u64, r: u64) -> Measurement {
 
 #[derive(Debug, Clone, Serialize, Deserialize)]
 pub enum C05Case {
+    /// a real association (source world): the measurements it hands on must carry exactly the four on-wire
+    /// timestamps of the exchange (send time, T2, T3, receive time)
+    Wire(crate::w_source::SourceCase),
     TwoWay { t1: u64, t2: u64, t3: u64, t4: u64 },
     OneWay { remote: u64, local: u64 },
 }
@@ -152,7 +155,7 @@ pub struct C05;
 impl Property for C05 {
     type Case = C05Case;
     const ID: &'static str = "C05";
-    const RULE: &'static str = "timestamp quadruples built as base + signed deltas (base near 0, 2^63, 2^64 and random so era wrap is frequent; every true difference |Δ| < 2^31 s, so representable) and one-way pairs, fed as the two measurements the source hands to the two-way / one-way controller wrappers with a recording inner controller; oracle = i128 arithmetic on the wrapped 64-bit differences: offset = ((T2-T1)+(T3-T4))/2 within one unit (halving), delay = (T4-T1)-(T3-T2) exactly (saturating at the representable range), one-way offset = remote - local; non-trivial = not all deltas zero";
+    const RULE: &'static str = "timestamp quadruples built as base + signed deltas (base near 0, 2^63, 2^64 and random so era wrap is frequent; every true difference |Δ| < 2^31 s, so representable) and one-way pairs, fed as the two measurements the source hands to the two-way / one-way controller wrappers with a recording inner controller; oracle = i128 arithmetic on the wrapped 64-bit differences: offset = ((T2-T1)+(T3-T4))/2 within one unit (halving), delay = (T4-T1)-(T3-T2) exactly (saturating at the representable range), one-way offset = remote - local; plus, rarely (they cost 10^3 quadruples each), real association histories in the source world: every measurement pair handed on carries exactly (send time, T2, T3, receive time) of its exchange; non-trivial = not all deltas zero";
     const ASSUMPTIONS: &'static [&'static str] = &["the recorded InternalMeasurement is what the clock filter receives"];
     const QUICK_CASES: u32 = 1_500_000;
     const THOROUGH_CASES: u32 = 150_000_000;
@@ -172,14 +175,16 @@ impl Property for C05 {
             ]
         };
         prop_oneof![
-            4 => (base.clone(), delta(), delta(), delta()).prop_map(|(t1, off, d1, d2)| {
+            1600 => (base.clone(), delta(), delta(), delta()).prop_map(|(t1, off, d1, d2)| {
                 // T2 = T1 + off + d1/…: build from independent representable differences
                 let t2 = t1.wrapping_add(off as u64);
                 let t3 = t2.wrapping_add((d1 >> 20) as u64);
                 let t4 = t3.wrapping_sub(d2 as u64);
                 C05Case::TwoWay { t1, t2, t3, t4 }
             }),
-            1 => (base, delta()).prop_map(|(local, d)| C05Case::OneWay { remote: local.wrapping_add(d as u64), local }),
+            400 => (base, delta()).prop_map(|(local, d)| C05Case::OneWay { remote: local.wrapping_add(d as u64), local }),
+            // source-world histories are 10^3 times more expensive than a quadruple: one case in 2000
+            1 => crate::w_source::case_strategy(12).prop_map(C05Case::Wire),
         ]
         .boxed()
     }
@@ -190,7 +195,18 @@ impl Property for C05 {
         let id = ClockId::new();
         let wrapdiff = |a: u64, b: u64| -> i128 { (a.wrapping_sub(b) as i64) as i128 };
         let sat = |v: i128| -> i128 { v.clamp(i64::MIN as i128, i64::MAX as i128) };
+        if let C05Case::Wire(sc) = case {
+            // the timestamp clause of the source-world judge (shared with C08); its other clauses are C08's business
+            let o = super::source::check_source(sc, super::source::Which::C08);
+            let timestamps_wrong = o.failure.as_ref().is_some_and(|f| f.signature.starts_with("measurement-timestamps-differ") || f.signature == "measurement-count");
+            if timestamps_wrong {
+                return Outcome { failure: o.failure, labels: vec!["wire"], nontrivial: true };
+            }
+            let measured = o.labels.iter().any(|l| *l == "delivery-accepted");
+            return Outcome::pass(measured).label("wire");
+        }
         match *case {
+            C05Case::Wire(_) => unreachable!(),
             C05Case::TwoWay { t1, t2, t3, t4 } => {
                 let d21 = wrapdiff(t2, t1);
                 let d34 = wrapdiff(t3, t4);
